@@ -47,6 +47,7 @@ type scenario struct {
 	setup func() (threads []func() string, expect []string)
 	fail  bool
 	local bool // channels / wait groups are private to each call (partial-order reduction)
+	after bool // a point also AFTER every completed channel receive (a worker may be descheduled between taking a task and starting on it)
 }
 
 // controlled runs f as the only thread of a default-schedule run (instrumented provers use
@@ -216,13 +217,52 @@ func s5(builder string, L, nbTasks int) scenario {
 	if nbTasks > 2 {
 		bq = 0 // with 3 workers the forced-switch orders alone are hundreds of schedules
 	}
-	return scenario{name: fmt.Sprintf("S5-workers-%s-L%d-n%d", builder, L, nbTasks), mode: vsched.Preemption, bound: [2]int{bq, bq + 1},
+	return scenario{name: fmt.Sprintf("S5-workers-%s-L%d-n%d", builder, L, nbTasks), mode: vsched.Preemption, bound: [2]int{bq, bq + 1}, after: true,
 		setup: func() ([]func() string, []string) {
 			ccs := mustCompile(builder, mk())
 			wOK := mustWitness([]int64{expected(3, 5)}, []int64{3, 5})
 			var exp []string
 			if wantExpect {
 				exp = []string{solveObs(mustCompile(builder, mk()), wOK, solver.WithNbTasks(1))}
+			}
+			return []func() string{func() string { return solveObs(ccs, wOK, solver.WithNbTasks(nbTasks)) }}, exp
+		}}
+}
+
+// S5L: a lookup table whose entries are COMPUTED wires (products of inputs), queried at input
+// indices, next to a wide level of independent products: the lookups must wait for the level that
+// produces the entries, whatever the workers' schedule.
+func s5lookupCircuit(L int) *circ.C {
+	return circ.New(1, 4, func(api frontend.API, p, s []frontend.Variable) error {
+		t := logderivlookup.New(api)
+		for i := 0; i < 4; i++ {
+			t.Insert(api.Mul(api.Add(s[0], i), api.Add(s[1], i)))
+		}
+		var acc frontend.Variable = 0
+		for i := 0; i < L; i++ {
+			acc = api.Add(acc, api.Mul(api.Add(s[0], i), api.Add(s[1], i+1)))
+		}
+		r := t.Lookup(s[2], s[3])
+		api.AssertIsEqual(api.Add(acc, r[0], r[1]), p[0])
+		return nil
+	})
+}
+
+func s5lookup(builder string, L, nbTasks int) scenario {
+	expected := func(a, b, i0, i1 int64) int64 {
+		acc := int64(0)
+		for i := int64(0); i < int64(L); i++ {
+			acc += (a + i) * (b + i + 1)
+		}
+		return acc + (a+i0)*(b+i0) + (a+i1)*(b+i1)
+	}
+	return scenario{name: fmt.Sprintf("S5L-workers-computed-table-%s-L%d-n%d", builder, L, nbTasks), mode: vsched.Preemption, bound: [2]int{1, 2}, after: true,
+		setup: func() ([]func() string, []string) {
+			ccs := mustCompile(builder, s5lookupCircuit(L))
+			wOK := mustWitness([]int64{expected(3, 5, 2, 0)}, []int64{3, 5, 2, 0})
+			var exp []string
+			if wantExpect {
+				exp = []string{solveObs(mustCompile(builder, s5lookupCircuit(L)), wOK, solver.WithNbTasks(1))}
 			}
 			return []func() string{func() string { return solveObs(ccs, wOK, solver.WithNbTasks(nbTasks)) }}, exp
 		}}
@@ -246,7 +286,7 @@ func s5invalid(builder string, L, nbTasks int, wrong []int) scenario {
 	for _, w := range wrong {
 		pub[w]++
 	}
-	return scenario{name: fmt.Sprintf("S5i-workers-invalid-%s-L%d-n%d-wrong%v", builder, L, nbTasks, wrong), mode: vsched.Preemption, bound: [2]int{0, 1},
+	return scenario{name: fmt.Sprintf("S5i-workers-invalid-%s-L%d-n%d-wrong%v", builder, L, nbTasks, wrong), mode: vsched.Preemption, bound: [2]int{0, 1}, after: true,
 		setup: func() ([]func() string, []string) {
 			ccs := mustCompile(builder, mk())
 			w := mustWitness(pub, []int64{3, 5})
@@ -409,6 +449,7 @@ func scenarios() []scenario {
 	return []scenario{
 		s1(circ.R1CS), s1(circ.SCS),
 		s5(circ.R1CS, 51, 2), s5(circ.SCS, 52, 3), s5(circ.R1CS, 103, 3),
+		s5lookup(circ.R1CS, 60, 2), s5lookup(circ.SCS, 60, 2),
 		s5invalid(circ.R1CS, 102, 2, []int{0, 101}), s5invalid(circ.SCS, 153, 3, []int{0, 76, 152}), s5invalid(circ.R1CS, 102, 3, []int{40}),
 		sProve("plonk"), sProve("groth16"),
 		sSharedHash("groth16"),
@@ -434,7 +475,7 @@ func main() {
 				threads, _ := s.setup()
 				obs := make([]string, len(threads))
 				x := vh.RunOnce(func(x *vh.Ctx) {
-					vsched.Run(x, vsched.Options{Mode: s.mode, Fail: s.fail, LocalSync: s.local}, func() {
+					vsched.Run(x, vsched.Options{Mode: s.mode, Fail: s.fail, LocalSync: s.local, AfterRecv: s.after}, func() {
 						var wg vsync.WaitGroup
 						for i := range threads {
 							i := i
@@ -464,6 +505,27 @@ func main() {
 			histories(c)
 		}
 		c.WorkerDone()
+	}
+	if c.Want("levels") {
+		// static side of "the outcome does not depend on the number of tasks": the level structure of
+		// the compiled scenario systems respects every data dependency (lookup entries included)
+		for _, b := range []string{circ.R1CS, circ.SCS} {
+			for name, ci := range map[string]*circ.C{"lookup": lookupCircuit(), "computed-table-L60": s5lookupCircuit(60), "computed-table-L3": s5lookupCircuit(3), "commit": commitCircuit()} {
+				ccs := mustCompile(b, ci)
+				g, ok := ccs.(constraint.ConstraintSystemGeneric[constraint.U64])
+				if !ok {
+					c.Fatal("levels: %s/%s is not a U64 system", name, b)
+				}
+				c.Evals.Add(1)
+				if d := refsolve.LevelConflict[constraint.U64](g); d != nil {
+					d["system"] = name + "/" + b
+					c.Violation("c10:levels:"+name+"/"+b, d)
+					c.Outcome("levels:CONFLICT")
+				} else {
+					c.Outcome("levels:respect-dependencies")
+				}
+			}
+		}
 	}
 	var units []string
 	for _, s := range scenarios() {
@@ -513,7 +575,7 @@ func explore(c *vh.Check, s scenario) {
 			threads, _ := s.setup()
 			expect := expectOnce
 			obs := make([]string, len(threads))
-			res := vsched.Run(x, vsched.Options{Mode: s.mode, Fail: s.fail, LocalSync: s.local}, func() {
+			res := vsched.Run(x, vsched.Options{Mode: s.mode, Fail: s.fail, LocalSync: s.local, AfterRecv: s.after}, func() {
 				var wg vsync.WaitGroup
 				for i := range threads {
 					i := i
